@@ -1,6 +1,9 @@
 """C13 — contract resolution survives restarts: same outcome, nothing skipped
 or repeated."""
+import os
+
 from lib.verif import *
+from props import c13_nursery
 
 THEOREMS = [
     "C13_resolved_only_when_done",
@@ -22,7 +25,7 @@ THEOREMS = [
 MODULE = "LV.Arb.RestartProps"
 TARGETS = ["theories/Arb/RestartProps.vo", "theories/Arb/RestartExec.vo",
            "theories/Arb/RestartExamples.vo"]
-WARM = [{"pkg": "contractcourt", "files": ["contractcourt/verif_restart_test.go"]}]
+WARM = [{"pkg": "contractcourt", "files": ["contractcourt/verif_restart_test.go"]}] + c13_nursery.WARM
 IMPORTS = ("From Coq Require Import List NArith Bool.\nImport ListNotations.\n"
            "From LV Require Import Arb.RestartModel Arb.RestartIncModel Arb.RestartExec.\n")
 
@@ -293,11 +296,23 @@ def f1_window(c):
 
 
 def run(ctx):
+    # second stage: the utxo nursery as a restartable component (props/c13_nursery.py)
+    if ctx.replay and c13_nursery.is_nursery_replay(ctx.replay):
+        c13_nursery.run_stage(ctx)
+        return
+    run_restart(ctx)
+    if not ctx.replay:
+        c13_nursery.run_stage(ctx)
+
+
+def run_restart(ctx):
     pr = ctx.proof_stage(MODULE, THEOREMS, TARGETS, extra_trusted=[
         "which chain actions / resolvers a close produces is an input of the model "
         "(classification is property C12); resolvers are staged scripts given per scenario",
         "one kvdb transaction = one atomic step (bbolt atomicity assumed)"])
     env = {}
+    if ctx.replay:
+        env["VERIF_REPLAY"] = os.path.abspath(ctx.replay)
     rc, trace, out = run_harness(ctx.uid(), "contractcourt",
                                  ["contractcourt/verif_restart_test.go"],
                                  "^TestVerifRestart$", env=env, timeout=2400,
